@@ -32,6 +32,10 @@ CFGS = {
     "churn2": ("P_churn2", dict(Threads=T3, MaxObj=3), INV),
     "wrap_fixed": ("P_wrap", dict(NF=0, GenMod=2, MaxObj=4), INV),
     "wrapw_fixed": ("P_wrapw", dict(NF=0, GenMod=2, MaxObj=5), INV),
+    "cache": ("P_cache", dict(MaxObj=4), INV),
+    "cache_nf0": ("P_cache", dict(NF=0, MaxObj=4), INV),
+    "cache2": ("P_cache2", dict(Threads=T3, MaxObj=3), INV),
+    "bug_cache": ("P_cache", dict(MaxObj=4, Bug='"cache_never_revalidates"'), INV),
     # the design as written in 1.7.1: the expect in confirm_helping fires (finding F1) - negative control
     "wrap_code": ("P_wrap", dict(NF=0, GenMod=2, MaxObj=4, WrapMode='"code"'), "Refines"),
     # seeded model bugs - negative controls (the invariants must notice)
